@@ -109,3 +109,31 @@ Proof.
   - replace (10 <=? Z.of_nat (List.length (m ++ t))) with true by (symmetry; apply Z.leb_le; rewrite app_length; destruct Hm; lia).
     cbn [flat_map]. rewrite (packet_is_trimmed_to_its_message m t Hm), IH. reflexivity.
 Qed.
+
+(** a packet that is cut short - at least a header, its size field announcing at least as many bytes as are there
+    (the rest in a later segment, or lost to the snap length) - is delivered whole: nothing is held back or dropped *)
+Definition cut_packet (p : list Z) : Prop :=
+  (10 <= List.length p)%nat /\ Z.of_nat (List.length p) <= be (firstn 4 (skipn 2 p)) 0.
+
+Theorem cut_packet_is_delivered_whole p : cut_packet p -> trim_payload p = p.
+Proof.
+  intros [_ Hs]. unfold trim_payload.
+  replace (be (firstn 4 (skipn 2 p)) 0 <? Z.of_nat (List.length p)) with false by (symmetry; apply Z.ltb_ge; exact Hs).
+  reflexivity.
+Qed.
+
+Inductive capture_cut : list (list Z) -> list Z -> Prop :=
+| cc_nil : capture_cut [] []
+| cc_runt p ps bs : (List.length p < 10)%nat -> capture_cut ps bs -> capture_cut (p :: ps) bs
+| cc_msg m t ps bs : sized_message m -> capture_cut ps bs -> capture_cut ((m ++ t) :: ps) (m ++ bs)
+| cc_cut p ps bs : cut_packet p -> capture_cut ps bs -> capture_cut (p :: ps) (p ++ bs).
+
+Theorem capture_with_cut_packets_delivers_every_carried_byte ps bs : capture_cut ps bs -> pcap_bytes ps = bs.
+Proof.
+  unfold pcap_bytes. induction 1 as [|p ps bs Hp H IH|m t ps bs Hm H IH|p ps bs Hc H IH]; [reflexivity| | |]; cbn [filter].
+  - replace (10 <=? Z.of_nat (List.length p)) with false by (symmetry; apply Z.leb_gt; lia). exact IH.
+  - replace (10 <=? Z.of_nat (List.length (m ++ t))) with true by (symmetry; apply Z.leb_le; rewrite app_length; destruct Hm; lia).
+    cbn [flat_map]. rewrite (packet_is_trimmed_to_its_message m t Hm), IH. reflexivity.
+  - replace (10 <=? Z.of_nat (List.length p)) with true by (symmetry; apply Z.leb_le; destruct Hc; lia).
+    cbn [flat_map]. rewrite (cut_packet_is_delivered_whole p Hc), IH. reflexivity.
+Qed.
